@@ -278,9 +278,184 @@ theorem burst_pending (s : St) (rs : List (IOOut × Frame)) : (s.burst rs).1.pen
   rw [dispatchGo_pending]
 
 
+/-! ### events in the middle of a drain (`race`): structural facts -/
+
+theorem inv0_rdRaw (s : St) (o : IOOut) (f : Frame) (h : Inv0 s) : Inv0 (s.rdRaw o f).1 := by
+  by_cases hrl : s.rl = .dead
+  · rw [rdRaw_dead s o f hrl]; exact h
+  · have hc : s.cstate ≠ .closed := fun e => hrl (h.1 e).2.1
+    by_cases ho : o = .ok
+    · subst ho
+      cases hr : s.rl with
+      | dead => exact absurd hr hrl
+      | hdr => rw [rdRaw_hdr_ok s f hr]; exact inv0_rl s .body s.pending h hc
+      | body => rw [rdRaw_body_ok s f hr]; exact inv0_rl s .hdr _ h hc
+    · rw [rdRaw_fault s o f hrl ho]; exact inv0_shutdown s true h
+
+theorem inv0_rdMany : ∀ (rs : List (IOOut × Frame)) (s : St), Inv0 s → Inv0 (s.rdMany rs).1 := by
+  intro rs
+  induction rs with
+  | nil => intro s h; exact h
+  | cons r rest ih =>
+    intro s h
+    obtain ⟨o, f⟩ := r
+    rw [rdMany_cons]
+    exact ih _ (inv0_rdRaw s o f h)
+
+theorem rdRaw_pending_closed (s : St) (o : IOOut) (f : Frame) (h : Inv0 s) (hc : s.cstate = .closed) :
+    s.rdRaw o f = (s, {}) := rdRaw_dead s o f (h.1 hc).2.1
+
+theorem inv0_hit (s : St) (x : Hit) (h : Inv0 s) : Inv0 (s.hit x).1 := by
+  cases x with
+  | rdRaise => simp only [St.hit]; split; exact h; exact inv0_shutdown s true h
+  | rdEof => simp only [St.hit]; split; exact h; exact inv0_shutdown s true h
+  | wr => simp only [St.hit]; split; exact inv0_shutdown s true h; exact h
+  | close => exact inv0_shutdown s false h
+
+@[simp] theorem hit_pending (s : St) (x : Hit) : (s.hit x).1.pending = s.pending := by
+  cases x with
+  | rdRaise => simp only [St.hit]; split; rfl; simp
+  | rdEof => simp only [St.hit]; split; rfl; simp
+  | wr => simp only [St.hit]; split; simp; rfl
+  | close => simp [St.hit]
+
+/-- an event on a closed transport finds no loop: nothing happens -/
+theorem hit_closed (s : St) (x : Hit) (h : Inv0 s) (hc : s.cstate = .closed) : s.hit x = (s, {}) := by
+  obtain ⟨hsl, hrl, _⟩ := h.1 hc
+  cases x with
+  | rdRaise => simp [St.hit, hrl]
+  | rdEof => simp [St.hit, hrl]
+  | wr => simp [St.hit, hsl]
+  | close => exact shutdown_closed s false hc
+
+/-- an event whose greenlet exists is a `_Shutdown`, with the fault signal unless it is a `Close()` -/
+theorem hit_eq (s : St) (x : Hit) (hrl : s.rl ≠ .dead) (hw : x = .wr → ∃ it, s.sl = .writing it) :
+    s.hit x = s.shutdown x.isFault := by
+  cases x with
+  | rdRaise => simp [St.hit, hrl, Hit.isFault]
+  | rdEof => simp [St.hit, hrl, Hit.isFault]
+  | wr => obtain ⟨it, hsl⟩ := hw rfl; simp [St.hit, hsl, Hit.isFault]
+  | close => rfl
+
+theorem wakes_closed (s : St) (f : Frame) (h : Inv0 s) (hc : s.cstate = .closed) : s.wakes f = false := by
+  simp [St.wakes, (h.1 hc).2.2]
+
+theorem processQ_closed (s : St) (f : Frame) (h : Inv0 s) (hc : s.cstate = .closed) :
+    s.processQ f = (s, {}) := by
+  simp only [St.processQ, wakes_closed s f h hc]
+  exact process_closed s f h hc
+
+theorem dispatchQGo_closed : ∀ (fs : List Frame) (s : St) (w : Bool), Inv0 s → s.cstate = .closed →
+    dispatchQGo fs s w = (s, [], w) := by
+  intro fs
+  induction fs with
+  | nil => intros; rfl
+  | cons f fs ih =>
+    intro s w h hc
+    simp [dispatchQGo, processQ_closed s f h hc, wakes_closed s f h hc, ih s w h hc]
+
+theorem processQ_pending (s : St) (f : Frame) : (s.processQ f).1.pending = s.pending := by
+  simp only [St.processQ]
+  split
+  · rfl
+  · exact process_pending s f
+
+theorem inv0_processQ (s : St) (f : Frame) (h : Inv0 s) : Inv0 (s.processQ f).1 := by
+  simp only [St.processQ]
+  split
+  · simp only [Inv0]
+    exact ⟨fun e => ⟨(h.1 e).1, (h.1 e).2.1, by trivial⟩, h.2⟩
+  · exact inv0_process s f h
+
+theorem dispatchQGo_pending : ∀ (fs : List Frame) (s : St) (w : Bool),
+    (dispatchQGo fs s w).1.pending = s.pending := by
+  intro fs
+  induction fs with
+  | nil => intros; rfl
+  | cons f fs ih =>
+    intro s w
+    simp only [dispatchQGo]
+    rw [ih, processQ_pending]
+
+theorem inv0_dispatchQGo : ∀ (fs : List Frame) (s : St) (w : Bool), Inv0 s →
+    Inv0 (dispatchQGo fs s w).1 := by
+  intro fs
+  induction fs with
+  | nil => intro s w h; exact h
+  | cons f fs ih =>
+    intro s w h
+    simp only [dispatchQGo]
+    exact ih _ _ (inv0_processQ s f h)
+
+theorem inv0_resumeOpen (s : St) (h : Inv0 s) : Inv0 s.resumeOpen := by
+  simp only [St.resumeOpen]
+  split
+  · exact h
+  · simp [Inv0]
+
+@[simp] theorem resumeOpen_pending (s : St) : s.resumeOpen.pending = s.pending := by
+  simp only [St.resumeOpen]; split <;> rfl
+
+@[simp] theorem resumeIf_pending (s : St) (w : Bool) : (s.resumeIf w).pending = s.pending := by
+  cases w <;> simp [St.resumeIf]
+
+theorem inv0_race (s : St) (rs : List (IOOut × Frame)) (pos : Pos) (x : Hit) (h : Inv0 s) :
+    Inv0 (s.race rs pos x).1 := by
+  cases pos with
+  | first => exact inv0_burst _ rs (inv0_hit s x h)
+  | pre =>
+    simp only [St.race, St.dispatch]
+    apply inv0_dispatchGo
+    have := inv0_hit _ x (inv0_rdMany rs s h)
+    simpa [Inv0] using this
+  | mid =>
+    simp only [St.race, St.dispatchQ]
+    have h1 := inv0_rdMany rs s h
+    have h2 : Inv0 ({ (s.rdMany rs).1 with pending := [] } : St) := by simpa [Inv0] using h1
+    have h3 := inv0_hit _ x (inv0_dispatchQGo (s.rdMany rs).1.pending _ false h2)
+    generalize dispatchQGo (s.rdMany rs).1.pending ({ (s.rdMany rs).1 with pending := [] } : St) false = r at h3 ⊢
+    obtain ⟨s2, d2, w⟩ := r
+    cases w
+    · exact h3
+    · exact inv0_resumeOpen _ h3
+
+theorem race_pending (s : St) (rs : List (IOOut × Frame)) (pos : Pos) (x : Hit) :
+    (s.race rs pos x).1.pending = [] := by
+  cases pos with
+  | first => exact burst_pending _ rs
+  | pre => simp only [St.race, St.dispatch]; rw [dispatchGo_pending]
+  | mid =>
+    simp only [St.race, St.dispatchQ]
+    have h3 := dispatchQGo_pending (s.rdMany rs).1.pending ({ (s.rdMany rs).1 with pending := [] } : St) false
+    generalize dispatchQGo (s.rdMany rs).1.pending ({ (s.rdMany rs).1 with pending := [] } : St) false = r at h3 ⊢
+    obtain ⟨s2, d2, w⟩ := r
+    cases w
+    · simpa using h3
+    · simpa using h3
+
+theorem inv0_openT (s : St) (r : Conn) (h : Inv0 s) : Inv0 (s.openT r).1 := by
+  simp only [St.openT]
+  split
+  · exact h
+  · split
+    · exact h
+    · rename_i h1 h2
+      have hidle : s.cstate = .idle := by simpa using h2
+      cases r with
+      | refuse =>
+        simp only
+        apply inv0_shutdown
+        simp only [Inv0]; rw [hidle]; simp; exact h.2 (by rw [hidle]; simp)
+      | ok =>
+        simp only
+        apply inv0_pump
+        · simp only [Inv0]; rw [hidle]; simp
+        · simp [hidle]
+
 theorem inv0_step (s : St) (op : Op) (h : Inv0 s) : Inv0 (stepOut s op).1 := by
   cases op with
   | look => exact h
+  | openBurst rs => exact inv0_burst _ rs (inv0_openT s .ok h)
   | close => exact inv0_shutdown s false h
   | pingSilence =>
     simp only [stepOut, St.pingSilence]
@@ -342,6 +517,7 @@ theorem inv0_step (s : St) (op : Op) (h : Inv0 s) : Inv0 (stepOut s op).1 := by
     · exact h
   | rd o f => exact inv0_burst s _ h
   | burst rs => exact inv0_burst s rs h
+  | race rs pos x => exact inv0_race s rs pos x h
 
 
 /-- the invariant of the transport between two operations: a closed transport has no live loop
@@ -357,6 +533,7 @@ theorem inv_init : Inv St.init := ⟨inv0_init, rfl⟩
 theorem step_pending (s : St) (op : Op) (h : s.pending = []) : (stepOut s op).1.pending = [] := by
   cases op with
   | look => exact h
+  | openBurst rs => exact burst_pending _ rs
   | close => simpa [stepOut, St.close] using h
   | pingSilence =>
     simp only [stepOut, St.pingSilence]
@@ -391,6 +568,7 @@ theorem step_pending (s : St) (op : Op) (h : s.pending = []) : (stepOut s op).1.
     · exact h
   | rd o f => exact burst_pending s _
   | burst rs => exact burst_pending s rs
+  | race rs pos x => exact race_pending s rs pos x
 
 theorem inv_step (s : St) (op : Op) (h : Inv s) : Inv (stepOut s op).1 :=
   ⟨inv0_step s op h.1, step_pending s op h.2⟩
@@ -444,14 +622,15 @@ theorem specStep_quiet (a : Acc) (op : Op) (o : Obs) (hreq : isReq op = none) (h
 theorem firstUnfailed_none (op : Op) (owed : List Nat) (dels : List (Nat × Resp))
     (h : firstNotFailed owed dels = none) : firstUnfailed op owed dels = none := by
   cases op <;> try exact h
-  simp only [firstUnfailed]
-  unfold firstNotFailed at h
-  rw [List.find?_eq_none] at h ⊢
-  intro id hid
-  have := h id hid
-  simp only [Bool.not_eq_true, Bool.not_eq_false', List.any_eq_true, Bool.and_eq_true] at this ⊢
-  obtain ⟨d, hd, he, _⟩ := this
-  exact ⟨d, hd, he⟩
+  all_goals
+    simp only [firstUnfailed]
+    unfold firstNotFailed at h
+    rw [List.find?_eq_none] at h ⊢
+    intro id hid
+    have := h id hid
+    simp only [Bool.not_eq_true, Bool.not_eq_false', List.any_eq_true, Bool.and_eq_true] at this ⊢
+    obtain ⟨d, hd, he, _⟩ := this
+    exact ⟨d, hd, he⟩
 
 /-- a shutdown of a transport that was not closed: every request in the tag map is failed -/
 theorem specStep_shutdown (s : St) (a : Acc) (seen : List Nat) (op : Op) (o : Obs) (h : Rel s a seen)
@@ -488,7 +667,7 @@ theorem rel_closed (s' : St) (a : Acc) (op : Op) (o : Obs) (seen ab : List Nat)
 theorem step_shutdown_ok (s : St) (a : Acc) (seen : List Nat) (op : Op) (b : Bool) (c : Nat)
     (h : Rel s a seen) (hc : s.cstate ≠ .closed) (hreq : isReq op = none)
     (hf : ∀ o : Obs, isFailure op o = true → b = true)
-    (hcarry : ∀ o : Obs, vCarry a op o = .ok) :
+    (hcarry : ∀ o : Obs, o.state = .closed → vCarry a op o = .ok) :
     let s' := (s.shutdown b).1
     let o := obsOf s' { eff := { (s.shutdown b).2 with conns := c } }
     (specStep a op o).1 = .ok ∧ Rel s' (specStep a op o).2 seen := by
@@ -500,7 +679,7 @@ theorem step_shutdown_ok (s : St) (a : Acc) (seen : List Nat) (op : Op) (b : Boo
   have hd : o.dels = s.tagMap.map (fun p => (p.2, Resp.cerr)) := by rw [ho]; rfl
   have hfl : isFailure op o = true → o.faults = 1 := by
     intro hfo; have := hf o hfo; subst this; rw [ho]; rfl
-  rw [specStep_shutdown s a seen op o h hc hreq hd hst hfl (hcarry o)]
+  rw [specStep_shutdown s a seen op o h hc hreq hd hst hfl (hcarry o hst)]
   refine ⟨rfl, ?_⟩
   apply rel_closed <;> first | (rw [hs']) | exact hst
 
@@ -510,7 +689,7 @@ def sentHas (o : Obs) (id : Nat) : Bool := o.sent.any (fun it => itemId it == so
 
 /-- a step that issues nothing and hands out nothing keeps the relation -/
 theorem rel_next (s s' : St) (a : Acc) (op : Op) (o : Obs) (seen : List Nat) (h : Rel s a seen)
-    (hcl : op ≠ .close) (hreq : isReq op = none) (htm : s'.tagMap = s.tagMap)
+    (hcl : isClose op = false) (hreq : isReq op = none) (htm : s'.tagMap = s.tagMap)
     (hst : o.state = s'.cstate)
     (hq : ∀ id ∈ qIds s', id ∈ qIds s ∧ sentHas o id = false) (hnd : (qIds s').Nodup)
     (hinv : Inv0 s') : Rel s' (nextAcc a op o a.owed a.abandoned) seen := by
@@ -624,7 +803,7 @@ theorem rel_rl (s : St) (a : Acc) (seen : List Nat) (r : RL) (h : Rel s a seen)
 /-- reads of the receive loop, as `rd o f` (`rs = [(o, f)]`) or as `burst rs`: the two operations
     differ only in the name the specification sees -/
 theorem step_ok_reads (s : St) (a : Acc) (seen : List Nat) (op : Op) (rs : List (IOOut × Frame))
-    (h : Rel s a seen) (hrl : s.rl ≠ .dead) (hreq : isReq op = none) (hcl : op ≠ .close)
+    (h : Rel s a seen) (hrl : s.rl ≠ .dead) (hreq : isReq op = none) (hcl : isClose op = false)
     (hcarry : ∀ o : Obs, vCarry a op o = .ok)
     (hfail : ∀ o : Obs, isFailure op o = rs.any (fun r => r.1 ≠ .ok))
     (hun : ∀ o : Obs, nextUnsent a op o =
@@ -638,7 +817,7 @@ theorem step_ok_reads (s : St) (a : Acc) (seen : List Nat) (op : Op) (rs : List 
     rw [h2]
     have hc1 : ({ s with rl := r', pending := [] } : St).cstate ≠ .closed := hc
     have := step_shutdown_ok ({ s with rl := r', pending := [] } : St) a seen op true 0
-      (rel_rl s a seen r' h hc) hc1 hreq (fun _ _ => rfl) hcarry
+      (rel_rl s a seen r' h hc) hc1 hreq (fun _ _ => rfl) (fun o _ => hcarry o)
     simpa [shutdown_eq _ true hc1] using this
   · have hall : ∀ r ∈ rs, r.1 = IOOut.ok :=
       fun r hr => Decidable.byContradiction (fun hne => hex ⟨r, hr, hne⟩)
@@ -677,381 +856,5 @@ theorem step_ok_reads (s : St) (a : Acc) (seen : List Nat) (op : Op) (rs : List 
     · exact List.Nodup.sublist F.qSub h.qnodup
     · exact List.Nodup.sublist (List.Sublist.map _ F.tmSub) h.tags
     · exact List.Nodup.sublist (List.Sublist.map _ F.tmSub) h.ids
-
-theorem step_ok (s : St) (a : Acc) (seen : List Nat) (op : Op) (h : Rel s a seen)
-    (hen : enabled s seen op = true) :
-    (specStep a op (obsOf (stepOut s op).1 (stepOut s op).2)).1 = .ok ∧
-    Rel (stepOut s op).1 (specStep a op (obsOf (stepOut s op).1 (stepOut s op).2)).2
-      (seenAfter op seen) := by
-  cases op with
-  | look =>
-    rw [specStep_quiet _ _ _ rfl rfl rfl rfl]
-    refine ⟨rfl, ?_⟩
-    obtain ⟨h1, h2, h3, h4, h5, h6, h7, h8, h9⟩ := h
-    refine ⟨?_, ?_, ?_, ?_, ?_, ?_, ?_, ?_, ?_⟩ <;>
-      simp_all [nextAcc, stepOut, obsOf, seenAfter, isReq, nextUnsent, itemId] <;> assumption
-  | pingSilence =>
-    have hpw : s.pingWait = true := by simpa [enabled] using hen
-    have hc : s.cstate ≠ .closed := by
-      intro e; have := (h.inv.1 e).2.2; rw [hpw] at this; cases this
-    have := step_shutdown_ok s a seen .pingSilence true 0 h hc rfl (fun _ _ => rfl) (fun _ => rfl)
-    simpa [stepOut, St.pingSilence, hpw, shutdown_eq s true hc, seenAfter, isReq] using this
-  | close =>
-    by_cases hc : s.cstate = .closed
-    · have htm : s.tagMap = [] := h.inv.2 (by rw [hc]; simp)
-      simp only [stepOut, St.close, shutdown_closed s false hc, seenAfter, isReq]
-      rw [specStep_quiet _ _ _ rfl rfl rfl rfl]
-      refine ⟨rfl, ?_⟩
-      obtain ⟨h1, h2, h3, h4, h5, h6, h7, h8, h9⟩ := h
-      refine ⟨?_, ?_, ?_, ?_, ?_, h6, h7, h8, h9⟩ <;>
-        simp_all [nextAcc, obsOf, nextUnsent, itemId]
-    · have := step_shutdown_ok s a seen .close false 0 h hc rfl (fun _ hf => by simp [isFailure] at hf)
-        (fun _ => rfl)
-      simpa [stepOut, St.close, shutdown_eq s false hc, seenAfter, isReq] using this
-  | openT r =>
-    simp only [enabled, Bool.and_eq_true, decide_eq_true_eq, Bool.not_eq_true'] at hen
-    obtain ⟨hidle, hnor⟩ := hen
-    have hc : s.cstate ≠ .closed := by rw [hidle]; simp
-    have htm : s.tagMap = [] := h.inv.2 (by rw [hidle]; simp)
-    cases r with
-    | refuse =>
-      let s1 : St := { s with hasOpenResult := true, openRes := .pending }
-      have h1 : Rel s1 a seen := by
-        obtain ⟨h1, h2, h3, h4, h5, h6, h7, h8, h9⟩ := h
-        exact ⟨h1, h2, h3, h4, h5, h6, h7, h8, h9⟩
-      have := step_shutdown_ok s1 a seen (.openT .refuse) true 1 h1 hc rfl (fun _ _ => rfl) (fun _ => rfl)
-      simpa [stepOut, St.openT, hnor, hidle, shutdown_eq s1 true hc, seenAfter, isReq, s1] using this
-    | ok =>
-      simp only [stepOut, St.openT, hnor, hidle, seenAfter, isReq]
-      simp only [Bool.false_eq_true, if_false, ne_eq, not_true_eq_false]
-      rw [specStep_quiet _ _ _ rfl rfl rfl rfl]
-      refine ⟨rfl, ?_⟩
-      apply rel_next s _ a _ _ seen h (by simp) rfl
-      · simp [htm]
-      · simp [obsOf, hidle]
-      · intro id hid; rw [qIds_pump] at hid; simp [qIds, qItems] at hid
-      · rw [qIds_pump]; simp [qIds, qItems, List.filterMap_cons]
-      · apply inv0_pump
-        · simp [Inv0, hidle]
-        · simp [hidle]
-  | req id tag =>
-    simp only [enabled, Bool.and_eq_true, Bool.not_eq_true', Bool.or_eq_true, decide_eq_true_eq] at hen
-    obtain ⟨⟨hfresh, hnop⟩, htag⟩ := hen
-    have hfresh : id ∉ seen := by simpa using hfresh
-    have hno : id ∉ a.owed := fun hm => hfresh (h.seenO id hm)
-    have hnq : id ∉ qIds s := fun hm => hfresh (h.seenQ id hm)
-    simp only [seenAfter, isReq]
-    by_cases hop : s.cstate = .opened
-    · -- accepted: tag map entry, queued frame
-      have htag' : 2 ≤ tag ∧ tag ∉ s.tagMap.map (·.1) := by
-        rcases htag with hx | hx
-        · simp [hop] at hx
-        · refine ⟨hx.1, ?_⟩
-          intro hm
-          obtain ⟨p, hp, he⟩ := List.mem_map.mp hm
-          have : (s.tagMap.any fun p => p.1 == tag) = true :=
-            List.any_eq_true.mpr ⟨p, hp, by simpa using he⟩
-          rw [hx.2] at this; cases this
-      have hstep : stepOut s (.req id tag) =
-          (({ s with tagMap := s.tagMap ++ [(tag, id)], sendQ := s.sendQ ++ [.req tag id] } : St).pump, {}) := by
-        simp only [stepOut, St.request]
-        rw [if_neg (by simp [hnop]), if_pos hop]
-      rw [hstep]
-      have hq : qIds ({ s with tagMap := s.tagMap ++ [(tag, id)],
-                               sendQ := s.sendQ ++ [.req tag id] } : St).pump = qIds s ++ [id] := by
-        rw [qIds_pump]; simp [qIds, qItems, List.filterMap_append, List.filterMap_cons]
-      have hset : settle (owedWith a (.req id tag)) a.abandoned [] = .ok (a.owed ++ [id], a.abandoned) := by
-        simp [owedWith, isReq]
-      have hprev : a.prev = .opened := by rw [h.prev]; exact hop
-      refine ⟨by simp [specStep, obsOf, hset, vFail, isFailure, vCarry, Verdict.and], ?_⟩
-      refine ⟨?_, ?_, ?_, ?_, ?_, ?_, ?_, ?_, ?_⟩
-      · simp [specStep, obsOf, hset, nextAcc, h.owed]
-      · simp [specStep, obsOf, hset, nextAcc, hop]
-      · intro j hj
-        rw [hq] at hj
-        simp only [specStep, obsOf, hset, nextAcc, nextUnsent, hprev, List.any_nil, Bool.not_false]
-        rcases List.mem_append.mp hj with hj | hj
-        · simpa using Or.inl (h.unsent j hj)
-        · simpa using Or.inr (by simpa using hj)
-      · intro j hj
-        simp only [specStep, obsOf, hset, nextAcc, reduceCtorEq, if_false] at hj
-        rcases List.mem_append.mp hj with hj | hj
-        · exact List.mem_cons_of_mem _ (h.seenO j hj)
-        · simp at hj; subst hj; simp
-      · intro j hj
-        rw [hq] at hj
-        rcases List.mem_append.mp hj with hj | hj
-        · exact List.mem_cons_of_mem _ (h.seenQ j hj)
-        · simp at hj; subst hj; simp
-      · rw [hq]
-        rw [List.nodup_append]
-        refine ⟨h.qnodup, by simp, ?_⟩
-        intro x hx y hy; simp at hy; subst hy; intro e; subst e; exact hnq hx
-      · simp only [pump_tagMap, List.map_append, List.map_cons, List.map_nil]
-        rw [List.nodup_append]
-        refine ⟨h.tags, by simp, ?_⟩
-        intro x hx y hy; simp at hy; subst hy; intro e; subst e; exact htag'.2 hx
-      · simp only [pump_tagMap, List.map_append, List.map_cons, List.map_nil]
-        rw [List.nodup_append]
-        refine ⟨h.ids, by simp, ?_⟩
-        intro x hx y hy; simp at hy; subst hy; intro e; subst e
-        apply hno; rw [h.owed]; exact hx
-      · apply inv0_pump
-        · simp only [Inv0]; rw [hop]; simp
-        · simp [hop]
-    · -- rejected on the spot: 'Sink not open'
-      have hstep : stepOut s (.req id tag) = (s, { eff := { dels := [(id, .other)] } }) := by
-        simp only [stepOut, St.request]
-        rw [if_neg (by simp [hnop]), if_neg hop]
-      rw [hstep]
-      have hset : settle (owedWith a (.req id tag)) a.abandoned [(id, Resp.other)] =
-          .ok (a.owed, a.abandoned) := by
-        simp only [owedWith, isReq]
-        rw [settle_cons_owed _ _ _ _ _ (by simp), erase_append_singleton_of_not_mem _ _ hno]; simp
-      have hprev : a.prev ≠ .opened := by rw [h.prev]; exact hop
-      refine ⟨by simp [specStep, obsOf, hset, vFail, isFailure, vCarry, Verdict.and, hprev], ?_⟩
-      obtain ⟨h1, h2, h3, h4, h5, h6, h7, h8, h9⟩ := h
-      refine ⟨?_, ?_, ?_, ?_, ?_, h6, h7, h8, h9⟩
-      · simp [specStep, obsOf, hset, nextAcc, h1]
-      · simp [specStep, obsOf, hset, nextAcc]
-      · intro j hj
-        simp only [specStep, obsOf, hset, nextAcc, nextUnsent, hprev, List.any_nil, Bool.not_false]
-        simpa using h3 j hj
-      · intro j hj
-        simp only [specStep, obsOf, hset, nextAcc, reduceCtorEq, if_false] at hj
-        exact List.mem_cons_of_mem _ (h4 j hj)
-      · intro j hj; exact List.mem_cons_of_mem _ (h5 j hj)
-  | wr o =>
-    simp only [enabled, Bool.and_eq_true] at hen
-    obtain ⟨hw, hneof⟩ := hen
-    cases hsl : s.sl with
-    | dead => simp [hsl] at hw
-    | waitQ => simp [hsl] at hw
-    | writing it =>
-      have hc : s.cstate ≠ .closed := by
-        intro e; have := (h.inv.1 e).1; rw [hsl] at this; cases this
-      cases o with
-      | eof => simp at hneof
-      | raise =>
-        have := step_shutdown_ok s a seen (.wr .raise) true 0 h hc rfl (fun _ _ => rfl) (fun _ => rfl)
-        simpa [stepOut, St.wr, hsl, shutdown_eq s true hc, seenAfter, isReq] using this
-      | ok =>
-        simp only [stepOut, St.wr, hsl, seenAfter, isReq]
-        have hqs : qIds s = (itemId it).toList ++ s.sendQ.filterMap itemId := by
-          simp only [qIds, qItems, hsl, List.filterMap_append, List.filterMap_cons, List.filterMap_nil]
-          cases itemId it <;> simp
-        have hq : qIds ({ s with sl := .waitQ } : St).pump = s.sendQ.filterMap itemId := by
-          rw [qIds_pump]; simp [qIds, qItems]
-        have hcarry : vCarry a (.wr .ok) (obsOf ({ s with sl := .waitQ } : St).pump { sent := [it] }) = .ok := by
-          simp only [vCarry, obsOf, progress, List.any_cons, List.any_nil, Bool.or_false]
-          cases it with
-          | ping => simp
-          | req t i =>
-            have : i ∈ a.unsent := h.unsent i (by rw [hqs]; simp)
-            simp [this]
-        rw [specStep_quiet _ _ _ rfl rfl rfl hcarry]
-        refine ⟨rfl, ?_⟩
-        have hnd := h.qnodup
-        rw [hqs] at hnd
-        apply rel_next s _ a _ _ seen h (by simp) rfl
-        · simp
-        · simp [obsOf]
-        · intro id hid
-          rw [hq] at hid
-          refine ⟨by rw [hqs]; exact List.mem_append_right _ hid, ?_⟩
-          simp only [sentHas, obsOf, List.any_cons, List.any_nil, Bool.or_false]
-          cases hi : itemId it with
-          | none => simp
-          | some j =>
-            have hne : j ≠ id := by
-              intro e; subst e
-              rw [hi] at hnd
-              simp only [Option.toList_some, List.singleton_append, List.nodup_cons] at hnd
-              exact hnd.1 hid
-            simpa using hne
-        · rw [hq]; exact (List.nodup_append.mp hnd).2.1
-        · apply inv0_pump
-          · simp only [Inv0]; exact ⟨fun e => absurd e hc, h.inv.2⟩
-          · exact hc
-  | rd o f =>
-    have hrl : s.rl ≠ .dead := by simpa [enabled] using hen
-    exact step_ok_reads s a seen (.rd o f) [(o, f)] h hrl rfl (by simp) (fun _ => rfl)
-      (fun _ => by cases o <;> simp [isFailure]) (fun _ => rfl)
-  | burst rs =>
-    have hrl : s.rl ≠ .dead := by simpa [enabled] using hen
-    exact step_ok_reads s a seen (.burst rs) rs h hrl rfl (by simp) (fun _ => rfl)
-      (fun _ => rfl) (fun _ => rfl)
-  | pingDue =>
-    by_cases hcond : (s.pingLoop && !s.pingWait && decide (s.cstate = .opened)) = true
-    · simp only [stepOut, St.pingDue, hcond, if_true, seenAfter, isReq]
-      have hop : s.cstate = .opened := by
-        simp only [Bool.and_eq_true, decide_eq_true_eq] at hcond; exact hcond.2
-      rw [specStep_quiet _ _ _ rfl rfl rfl rfl]
-      refine ⟨rfl, ?_⟩
-      have hq : qIds ({ s with pingWait := true, sendQ := s.sendQ ++ [.ping] } : St).pump = qIds s := by
-        rw [qIds_pump]; simp [qIds, qItems, List.filterMap_append, List.filterMap_cons]
-      apply rel_next s _ a _ _ seen h (by simp) rfl
-      · simp
-      · simp [obsOf]
-      · intro id hid; rw [hq] at hid; exact ⟨hid, by simp [sentHas, obsOf]⟩
-      · rw [hq]; exact h.qnodup
-      · apply inv0_pump
-        · simp only [Inv0]; rw [hop]; simp
-        · simp [hop]
-    · simp only [stepOut, St.pingDue, hcond, seenAfter, isReq]
-      simp only [Bool.false_eq_true, if_false]
-      rw [specStep_quiet _ _ _ rfl rfl rfl rfl]
-      refine ⟨rfl, ?_⟩
-      apply rel_next s s a _ _ seen h (by simp) rfl rfl (by simp [obsOf])
-      · intro id hid; exact ⟨hid, by simp [sentHas, obsOf]⟩
-      · exact h.qnodup
-      · exact h.inv
-
-
-theorem and_eq_ok {v : Verdict} {f : Unit → Verdict} (h : v.and f = .ok) : v = .ok ∧ f () = .ok := by
-  cases v with
-  | ok => exact ⟨rfl, h⟩
-  | fail c ps => simp [Verdict.and] at h
-
-/-- a property of the specification alone: a history it accepts hands a request at most as many
-    responses as it is owed at the start plus the number of times it is issued -/
-theorem spec_count (id : Nat) : ∀ (h : List (Op × Obs)) (a : Acc), specGo a h = .ok →
-    responsesTo id h ≤ a.owed.count id + a.abandoned.count id + issued id h := by
-  intro h
-  induction h with
-  | nil => intro a _; simp [responsesTo]
-  | cons p rest ih =>
-    intro a hok
-    obtain ⟨op, o⟩ := p
-    simp only [specGo] at hok
-    obtain ⟨hv, hrest⟩ := and_eq_ok hok
-    have ih' := ih _ hrest
-    simp only [responsesTo, issued, List.map_cons, List.sum_cons, List.countP_cons] at ih' ⊢
-    unfold specStep at hv ih'
-    cases hset : settle (owedWith a op) a.abandoned o.dels with
-    | error e => simp [hset] at hv
-    | ok pr =>
-      obtain ⟨owed2, ab2⟩ := pr
-      have hc := settle_count id _ _ _ _ _ hset
-      simp only [hset, nextAcc] at ih'
-      have hown : (owedWith a op).count id =
-          a.owed.count id + (if (isReq op == some id) = true then 1 else 0) := by
-        unfold owedWith
-        cases hr : isReq op with
-        | none => simp
-        | some j =>
-          by_cases e : j = id
-          · subst e; simp
-          · simp [e, List.count_singleton]
-      rw [hown] at hc
-      by_cases hcl : op = .close
-      · simp only [hcl, if_true, List.count_nil, List.count_append] at ih' ⊢
-        simp only [hcl, isReq] at hc
-        simp at hc ⊢
-        omega
-      · simp only [hcl, if_false] at ih'
-        omega
-
-
-theorem spec_of_rel : ∀ (ops : List Op) (s : St) (a : Acc) (seen : List Nat), Rel s a seen →
-    opsOk s seen ops = true → specGo a (comp.trace () s ops) = .ok := by
-  intro ops
-  induction ops with
-  | nil => intros; rfl
-  | cons op ops ih =>
-    intro s a seen hrel hok
-    simp only [opsOk, Bool.and_eq_true] at hok
-    obtain ⟨hen, hrest⟩ := hok
-    obtain ⟨hv, hrel'⟩ := step_ok s a seen op hrel hen
-    simp only [TComp.trace, comp, step, specGo]
-    exact and_ok hv (ih _ _ _ hrel' hrest)
-
-
-theorem issued_cons (id : Nat) (s : St) (op : Op) (ops : List Op) :
-    issued id (comp.trace () s (op :: ops)) =
-      issued id (comp.trace () (stepOut s op).1 ops) + (if isReq op = some id then 1 else 0) := by
-  simp only [TComp.trace, comp, step, issued, List.countP_cons]
-  simp
-
-theorem issued_le (id : Nat) : ∀ (ops : List Op) (s : St) (seen : List Nat),
-    opsOk s seen ops = true →
-    issued id (comp.trace () s ops) ≤ (if id ∈ seen then 0 else 1) := by
-  intro ops
-  induction ops with
-  | nil => intros; simp [TComp.trace, issued]
-  | cons op ops ih =>
-    intro s seen hok
-    simp only [opsOk, Bool.and_eq_true] at hok
-    obtain ⟨hen, hrest⟩ := hok
-    have ih' := ih _ _ hrest
-    rw [issued_cons]
-    cases hr : isReq op with
-    | none => simpa [hr] using ih'
-    | some i =>
-      have hfresh : i ∉ seen := by
-        cases op <;> simp [isReq] at hr
-        subst hr
-        simp only [enabled, Bool.and_eq_true, Bool.not_eq_true'] at hen
-        simpa using hen.1.1
-      simp only [hr] at ih'
-      by_cases e : i = id
-      · subst e; simp [hfresh] at ih' ⊢; exact ih'
-      · have : id ∈ i :: seen ↔ id ∈ seen := by simp [Ne.symm e]
-        simp only [this] at ih'
-        simpa [e] using ih'
-
-
-
-/-- a connection failure needs a transport that is not closed, and is a shutdown with fault -/
-theorem failure_is_shutdown (s : St) (op : Op) (hinv : Inv0 s) (hf : connFailure s op = true) :
-    s.cstate ≠ .closed ∧ ∃ s1 : St, s1.cstate = s.cstate ∧ s1.tagMap = s.tagMap ∧
-      (stepOut s op).1 = (s1.shutdown true).1 ∧
-      (stepOut s op).2.eff.faults = (s1.shutdown true).2.faults ∧
-      (stepOut s op).2.eff.dels = (s1.shutdown true).2.dels := by
-  cases op with
-  | openT r =>
-    cases r with
-    | ok => simp [connFailure] at hf
-    | refuse =>
-      simp only [connFailure, Bool.and_eq_true, decide_eq_true_eq, Bool.not_eq_true'] at hf
-      refine ⟨by rw [hf.1]; simp, { s with hasOpenResult := true, openRes := .pending }, rfl, rfl, ?_⟩
-      simp [stepOut, St.openT, hf.1, hf.2]
-  | wr o =>
-    cases hsl : s.sl with
-    | writing it =>
-      have hc : s.cstate ≠ .closed := by
-        intro e; have := (hinv.1 e).1; rw [hsl] at this; cases this
-      cases o <;> simp [connFailure, hsl] at hf
-      exact ⟨hc, s, rfl, rfl, by simp [stepOut, St.wr, hsl]⟩
-    | dead => cases o <;> simp [connFailure, hsl] at hf
-    | waitQ => cases o <;> simp [connFailure, hsl] at hf
-  | rd o f =>
-    have hrl : s.rl ≠ .dead := by cases o <;> simp_all [connFailure]
-    have ho : o ≠ .ok := by intro e; subst e; simp [connFailure] at hf
-    have hc : s.cstate ≠ .closed := fun e => hrl (hinv.1 e).2.1
-    obtain ⟨r', _, h2⟩ := burst_fault s [(o, f)] hinv hrl ⟨(o, f), by simp, ho⟩
-    refine ⟨hc, { s with rl := r', pending := [] }, rfl, rfl, ?_⟩
-    show (s.burst [(o, f)]).1 = _ ∧ (s.burst [(o, f)]).2.eff.faults = _ ∧ (s.burst [(o, f)]).2.eff.dels = _
-    rw [h2]; exact ⟨rfl, rfl, rfl⟩
-  | burst rs =>
-    simp only [connFailure, Bool.and_eq_true, decide_eq_true_eq, List.any_eq_true] at hf
-    obtain ⟨hrl, r, hr, hne⟩ := hf
-    have hrl : s.rl ≠ .dead := by simpa using hrl
-    have hne : r.1 ≠ IOOut.ok := by simpa using hne
-    have hc : s.cstate ≠ .closed := fun e => hrl (hinv.1 e).2.1
-    obtain ⟨r', _, h2⟩ := burst_fault s rs hinv hrl ⟨r, hr, hne⟩
-    refine ⟨hc, { s with rl := r', pending := [] }, rfl, rfl, ?_⟩
-    show (s.burst rs).1 = _ ∧ (s.burst rs).2.eff.faults = _ ∧ (s.burst rs).2.eff.dels = _
-    rw [h2]; exact ⟨rfl, rfl, rfl⟩
-  | pingSilence =>
-    have hpw : s.pingWait = true := by simpa [connFailure] using hf
-    have hc : s.cstate ≠ .closed := by
-      intro e; have := (hinv.1 e).2.2; rw [hpw] at this; cases this
-    exact ⟨hc, s, rfl, rfl, by simp [stepOut, St.pingSilence, hpw]⟩
-  | req id tag => simp [connFailure] at hf
-  | pingDue => simp [connFailure] at hf
-  | close => simp [connFailure] at hf
-  | look => simp [connFailure] at hf
-
 
 end Scales.MuxT
